@@ -13,6 +13,22 @@ CHECKS = {
  "C11": ("proof", "interprocedural effect (write-set) analysis + return-provenance (freshness) analysis (go/ssa)", "DESIGN.md §3 R-PURE/R-FRESH/R-NONDET, §4 C11",
    "For every exported query method (names of the statement, all Is*/Can* methods, plain getters; enumerated from go/types each run) the transitive write set over all in-package callees is proved empty on every non-fresh object, returned slices/maps are proved to be allocated during the call, and no nondeterministic source is reachable. With no write to shared memory, repeated and concurrent queries cannot interfere or race; this is a proof of the property for all inputs and schedules of queries.",
    "Trusted: go/ssa lowering, root tracing, a purity table for the standard-library functions used. Not covered: user closures/String() methods called by queries (listed as USER edges), stdlib-internal synchronisation, query-vs-mutator races (C10)."),
+
+ "C06": ("other", "truth-table extraction from path-sensitive return summaries + guarded-store (must-pass-through) analysis + nil/reflect panic-site census (go/ssa)", "DESIGN.md §3 R-TT/R-STOREGUARD/R-NIL, §4 C06",
+   "Decides exactly the finite parts of C06: Condition.Valid's return paths are compared row by row (48 feasible rows) with the table the property states; the expression filter and the parenthesis/padding polarity of condition.string likewise; keyword/operator/expression are proved to be written only by their setters and only after the acceptance test, so a rejected argument leaves the previous value; Cond records Valid()'s verdict; String() renders only when Valid()==nil; no setter/constructor can panic on nil, empty or wrongly typed arguments (census of nil/reflect panic sites in their reachable code).",
+   "Necessary conditions only (level other). Not covered: the exact rendered text (string-valued functional correctness), user Operator/Stringer code. Trusted: go/ssa lowering, the fact engine and its summaries (checker/engine.go), the rule tables."),
+ "C13": ("other", "truth-table extraction (finite predicate abstraction on the CFG) + per-iteration gate analysis of the append loops + write-set analysis (go/ssa)", "DESIGN.md §3 R-TT/R-APPEND, §4 C13",
+   "The acceptance decision at push time, both CanNest getters and the Condition-side filter are loop-free Boolean functions: their return paths are enumerated and compared with the table the property states (decided exactly). The append in the per-value loop is proved to be gated by the verdict on that very value and by a fullness test made after the previous write; switching the option is proved to write the option word only.",
+   "Level other: IsNesting's full-scan clause is not claimed; custom push policies bypass the option by design. Trusted: go/ssa lowering, fact engine, rule tables."),
+ "C14": ("other", "dispatch/path enumeration over closure slots + setter who-writes-what + loop gate analysis (go/ssa)", "DESIGN.md §3 R-DISPATCH/R-STOREGUARD, §4 C14",
+   "For each closure slot the dispatcher's return paths are enumerated: closure invoked iff installed, built-in code not run on that path, the closure's own result returned, built-in code run when the slot is nil; each setter stores its argument into exactly its slot; the policy-gated append consults the policy only while room remains, once per iteration, appends only the approved value, and a rejection records the policy's error and ends the batch; BASIC stacks refuse a presentation policy with an error and rendering is gated by canString (table checked).",
+   "Structural necessary conditions (level other): 'once per offered value' is one call site in the per-value loop, not a runtime count; closure bodies are opaque."),
+ "C17": ("other", "whole-package census of nil-dereference and reflect panic sites discharged by path-sensitive facts, relational summaries and (conditional) interprocedural preconditions; re-analysis under a nil handle for zero results (go/ssa)", "DESIGN.md §3 R-INIT/R-NIL/R-REFL/R-HANDLE, §4 C17",
+   "Every nil-panic-capable instruction (about 1460) and every panicking reflect.Value call of the package is discharged on every path or turned into a precondition checked at all call sites; exported methods may require nothing of their receiver, so zero-valued and freed instances cannot panic. Only Free/Marshal/Init can write a handle (type-level + effect check). Each exported value-receiver method is re-analysed assuming a nil embedded pointer: all return paths yield the zero answer (documented exceptions listed). Reset's reachable code has no branch on an element being nil and writes only content.",
+   "Level other (a census with discharge is close to a proof of nil/reflect panic freedom, but the domains are hand-written). Assumes the pointer receiver of the four pointer-receiver methods is non-nil; user closures excluded; index-range panics belong to C08."),
+ "C18": ("other", "constant/table extraction + operator-identity checks + truth tables + guarded-store and value-flow (setter/getter field) analysis (go/types, go/ssa)", "DESIGN.md §3 R-FLAGS/R-MASK/R-TT/R-LATCH/R-PAIR/R-STOREGUARD/R-TBL, §4 C18",
+   "Option bits distinct; mask helpers exact; the tri-state setter matches the prescribed table on both types; getters have the stated polarity; every public switch drives the option its name says with Stack/Condition agreeing and writes nothing but the option word; FIFO is a one-way latch; setter/getter pairs share one field; delimiter/symbol stores are gated by the (immutable) kind; duplicate encapsulation characters are refused before the append; log levels merge with exactly |= and &^=, shortcuts guarded, name tables mutually inverse.",
+   "Level other: 'reflected in String()' (symbol, encapsulation, lead-once/fold polarity inside the rendering loop) is not decided."),
 }
 
 NA = {
